@@ -933,10 +933,16 @@ def replay(rp):
     F = FAM[rp["family"]]
     try:
         op = F.build(rp["params"])
+        if rp.get("error"):
+            l1.Wrapped(op).matrices()
     except Exception as e:
-        print("constructor raised %s: %s" % (type(e).__name__, e))
+        print("operator raised %s: %s" % (type(e).__name__, e))
         print("reproduced" if rp.get("error") else "not reproduced")
         return 1 if rp.get("error") else 0
+    if rp.get("error"):
+        print("operator builds and applies (recorded error: %s)" % rp["error"])
+        print("not reproduced")
+        return 0
     Mref = np.asarray(F.ref(rp["params"]))
     adj = bool(rp.get("adjoint"))
     if adj:
@@ -971,6 +977,7 @@ def run(R, tier):
     adj_notes = []
     failing = {}          # family -> list of (size, rec, codes): shrunk to the smallest configuration below
     failing_adj = {}      # same for the documented adjoint action (ADJ_DOCUMENTED families)
+    failing_err = {}      # (family, exception class) -> configurations on which the operator cannot be built/applied
     for rec in recs:
         fam, p = rec["family"], rec["params"]
         if "error" in rec:
@@ -978,8 +985,7 @@ def run(R, tier):
             if kf:
                 R.known_finding(kf["id"], kf["what"])
             else:
-                R.violation("%s: operator cannot be built/applied on a documented configuration: %s %s: %s"
-                            % (SUB, fam, p, rec["error"]), {"family": fam, "params": p, "error": rec["error"], "sub": SUB})
+                failing_err.setdefault((fam, rec["error"].split(":")[0]), []).append((prod(p.get("dims", p.get("N", [0]))), rec["id"], rec))
             continue
         evals += rec["A"].shape[0] + rec["A"].shape[1]
         if np.abs(rec["A"]).max(initial=0) > 0:
@@ -1013,6 +1019,13 @@ def run(R, tier):
             rp.update(correspondence="CheckC07b.chkR/chkC: implementation matrix vs Coq specification matrix", coq_codes=c)
             R.violation("%s: %s %s disagrees with the Coq specification matrix at %s but the numpy transcription agrees%s"
                         % (SUB, fam, p, c[1:3], more), rp, no_input=True)
+    for (fam, _), lst in sorted(failing_err.items()):
+        lst.sort(key=lambda t: (t[0], t[1]))
+        rec = lst[0][2]
+        more = "" if len(lst) == 1 else " (+%d larger failing configurations of this family)" % (len(lst) - 1)
+        R.violation("%s: operator cannot be built/applied on a documented configuration: %s %s: %s%s"
+                    % (SUB, fam, rec["params"], rec["error"], more),
+                    {"family": fam, "params": rec["params"], "error": rec["error"], "sub": SUB, "failing_configurations": len(lst)})
     for fam, lst in sorted(failing_adj.items()):
         lst.sort(key=lambda t: (t[0], t[1]))
         _, _, rec, c = lst[0]
